@@ -262,7 +262,7 @@ func CheckEq(c EqCase) ([]evid.Violation, int) {
 	rs := route.RuleSet{c.Rule}
 	a := route.Build(rs, nil) // annotation
 	rule := proto.Clone(c.Rule.HTTPRule()).(*annotations.HttpRule)
-	rule.Selector = "rt.Svc0.Mth0"
+	rule.Selector = "rt.Svc0.Mth"
 	cfg := &serviceconfig.Service{Http: &annotations.Http{Rules: []*annotations.HttpRule{rule}}}
 	b := route.BuildWorld(route.World(rs, false), 1, nil, larking.ServiceConfigOption(cfg))
 	var vs []evid.Violation
@@ -340,7 +340,7 @@ func TestPropEquiv(t *testing.T) {
 				c.Reqs = append(c.Reqs, r)
 			}
 		}
-		c.Reqs = append(c.Reqs, EqReq{Verb: "POST", Path: "/rt.Svc0/Mth0", Body: `{"name":"implicit"}`})
+		c.Reqs = append(c.Reqs, EqReq{Verb: "POST", Path: "/rt.Svc0/Mth", Body: `{"name":"implicit"}`})
 		vs, dispatched := CheckEq(c)
 		key := ""
 		if hasVarOrBody && dispatched > 0 {
